@@ -52,11 +52,14 @@ class C11(Prop):
     level_text = ("Lean theorems: the model of the (repaired) position scan of is_single_peaked_axis accepts an axis "
                   "iff for every voter and k the union of the k best classes is contiguous on it; the rows of the model "
                   "of sp_cons_ones_matrix are consecutive under a column order iff the profile is single-peaked on the "
-                  "corresponding axis; witness checker and brute-force decider are correct; type guards. The PQ-tree and "
-                  "the CBC solver are outside Lean: their verdicts are compared with the verified brute force and the ILP "
-                  "axis is re-checked by the verified checker on every run (tested, not proved)")
-    level_note = ("Lean kernel + standard axioms; PQ-tree and CBC/python-mip are contracts exercised at run time; "
-                  "hand-written model of the axis test and matrix construction")
+                  "corresponding axis; witness checker and brute-force decider are correct; type guards. The model of "
+                  "the PQ-tree (C05PQ) is proved to decide the consecutive-ones property, so the model of "
+                  "is_single_peaked_pq_tree is exact; it is compared with the real function on every run and is the "
+                  "oracle above 7 alternatives. The CBC solver is outside Lean: the ILP handed to it is compared "
+                  "constraint by constraint with the Lean model (proved feasible iff single-peaked), its verdict with "
+                  "the verified deciders and its axis is re-checked by the verified checker on every run")
+    level_note = ("Lean kernel + standard axioms; CBC/python-mip is a contract exercised at run time; hand-written "
+                  "models of the axis test, the matrix construction, the PQ-tree and the ILP")
     theorems = [
         "PrefVerif.C11.orderOk_iff",
         "PrefVerif.C11.isSinglePeakedAxis_iff",
@@ -66,6 +69,7 @@ class C11(Prop):
         "PrefVerif.C11.bruteSP_iff",
         "PrefVerif.C11.consOnes_iff",
         "PrefVerif.C11.consOnes_C1P_iff_SP",
+        "PrefVerif.C05PQ.isC1P_iff",
         "PrefVerif.ILPP.sp_axis_feasible",
         "PrefVerif.ILPP.sp_feasible_axis",
         "PrefVerif.ILPP.sp_feasible_iff",
@@ -89,7 +93,7 @@ class C11(Prop):
     def generate(self, rng, n, deep=False):
         for i in range(n):
             r = rng.random()
-            m = rng.choice([1, 2, 3, 3, 4, 4, 5, 6])
+            m = rng.choice([1, 2, 3, 3, 4, 4, 5, 6, 8, 10, 14])      # above 7 the verified PQ-tree model is the oracle
             alts = gen.alt_ids(rng, m)
             store = gen.perm(rng, alts) if rng.random() < 0.3 else alts
             nn = rng.randint(1, 5)
@@ -123,7 +127,7 @@ class C11(Prop):
                     seen.add(repr(o))
                     uniq.append(o)
             t = gen.infer_type([tuple(map(tuple, o)) for o in uniq], m)
-            c = {"kind": "sp", "type": t, "alts": store, "orders": uniq, "ilp": i % 6 == 0}
+            c = {"kind": "sp", "type": t, "alts": store, "orders": uniq, "ilp": i % 6 == 0 and m <= 8}
             if rng.random() < 0.3:
                 c["mults"] = [rng.choice([1, 2, 3, 5, 17, 100]) for _ in uniq]
             if not c["ilp"] and len(uniq) >= 2 and rng.random() < 0.25:
@@ -197,7 +201,17 @@ class C11(Prop):
             if cap["solution"] is not None:
                 d["solution"] = [[k, [round(v), 1]] for k, v in cap["solution"].items()]
             reqs.append(d)
+        # the verified PQ-tree model on the consecutive-ones matrix of the profile (always the LAST request)
+        rows = self._rows(case)
+        m = len(case["alts"])
+        reqs.append({"op": "pq.solve", "ncols": m, "matrix": [[1 if c in r else 0 for c in range(m)] for r in rows]})
         return reqs
+
+    @staticmethod
+    def _rows(case):
+        """sp_cons_ones_matrix as lists of column indices (one row per voter and prefix of classes)"""
+        idx = {a: k for k, a in enumerate(case["alts"])}
+        return [[idx[a] for c in o[:lvl + 1] for a in c] for o in case["orders"] for lvl in range(len(o))]
 
     def nontrivial_key(self, case, obs):
         if case["kind"] == "guard" or len(case["orders"]) < 2 or len(case["alts"]) < 3:
@@ -222,6 +236,19 @@ class C11(Prop):
                 out.append(Problem("disagreement", case, f"model axis test {mod} vs spec {spec} on {ax}", "model/axis"))
                 break
         truth = rep["bruteSP"]
+        pq = replies[-1]
+        if rep["rows"] != self._rows(case):
+            out.append(Problem("disagreement", case, "harness and model build different consecutive-ones rows", "model/rows"))
+        elif truth is None:
+            # no brute force at this size: the PQ-tree model decides (C05PQ.isC1P_iff with C11.consOnes_C1P_iff_SP)
+            truth = pq["isC1P"]
+            self.count("truth-from-verified-pq-model")
+        elif pq["isC1P"] != truth:
+            out.append(Problem("disagreement", case, f"PQ-tree model says {pq['isC1P']}, brute force says {truth}",
+                               "model/pq-spec"))
+        if obs["pq"][0] == "ok" and obs["pq"][1] != pq["isC1P"]:
+            out.append(Problem("disagreement", case, f"PQ-tree model says {pq['isC1P']}, is_single_peaked_pq_tree "
+                               f"says {obs['pq'][1]}", "model/pq-verdict"))
         self.count("truth:" + str(truth))
         if obs["pq"][0] != "ok":
             P(f"is_single_peaked_pq_tree raised {obs['pq'][1]}", "pq/call")
